@@ -1,29 +1,31 @@
 (* Properties/C40.v — Log queries return exactly the matching canonical logs.
    Property theorems only, about the model Chain/LogIndex.v of /repo/core/filtermaps and
    /repo/eth/filters/filter.go; each closed by [exact] of a lemma of
-   Chain/LogIndexProofs.v, Chain/LogIndexSeq.v, Chain/LogIndexQuery.v.
+   Chain/LogIndexProofs.v, LogIndexSeq.v, LogIndexQuery.v, LogIndexLayout.v, LogIndexExact.v.
 
    The row and column hash functions are arbitrary ([row_hash], [col_index]); the only
    hypothesis on them is [col_high]: the bits of a column index above hashBits are
    lvIndex mod valuesPerMap (math.go columnIndex).  [None] results (panic / error /
    fuel) are excluded by hypothesis, never assumed away.
 
-   FULL STATEMENT of the property (kept visible):
-     query_exact : for a chain, an index built from it and any block range first..last,
-       range_logs first last = QOk ms -> scan chain first last = Some ms
-     (the logs a direct scan of the canonical receipts returns, in chain order, no
-     duplicates), at any indexing progress.
-   PROVED below: completeness of every layer of the indexed search (a matching log is
-   never lost: C40_potential_matches_complete, C40_sequence_complete, incl. row overflow
-   to higher layers, alternatives, wild cards, offset alignment), well-formedness of the
-   matcher results (strictly increasing, inside the map: the order/no-duplicates half),
-   that the matcher never reaches potentialMatches' panic, and the unindexed fallback
-   (C40_unindexed_falls_back, C40_scan_split).
-   MISSING (hence the name C40_query_exact_partial is not claimed at all): the layout /
-   getLogByLvIndex correctness (block pointer binary search) and the assembly of the
-   per-map results into the exact list; the indexer's progress and reorg handling.
-   These are tied by the correspondence run only. *)
-From GV Require Import Lib.Tactics Chain.LogIndex Chain.LogIndexProofs Chain.LogIndexSeq Chain.LogIndexQuery.
+   THE PROPERTY, proved as one equation (C40_query_exact, C40_query_exact_idle): for a
+   chain, an index holding the chain's block pointers and - for the maps of its indexed
+   range only - the rows rendered from the chain, and any block range first..last,
+       range_logs first last = QOk ms  ->  scan chain first last = Some ms
+   i.e. exactly the logs a direct scan of the canonical logs returns, in chain order, no
+   duplicates, whether the range lies inside, outside or across the indexed blocks.
+   The layers below it are kept as theorems of their own: getLogByLvIndex correctness
+   (C40_get_log_correct: per-map narrowing, binary search on block pointers, walk through
+   the block), C40_indexed_exact (range inside the indexed blocks: matcher over the maps
+   + false positive removal = scan), completeness of the matcher (C40_potential_matches_
+   complete, C40_sequence_complete), sortedness of its results, no panic, the fallback.
+   Hypotheses: [col_high], baseRowLength < 2^32, every log has at most valuesPerMap values,
+   [rg_ok] / [index_ok] (shown to hold for the index built from the chain at its idle
+   range: C40_idle_range_ok).
+   NOT proved (correspondence only): that the real indexer's head rendering, tail
+   unindexing and reorg handling keep [index_ok]/[rg_ok] (see C40_* history theorems below
+   for the abstract indexer operations, if present), queries racing the indexer. *)
+From GV Require Import Lib.Tactics Chain.LogIndex Chain.LogIndexProofs Chain.LogIndexSeq Chain.LogIndexQuery Chain.LogIndexLayout Chain.LogIndexExact.
 Local Open Scope N_scope.
 
 (* A value inserted at lv while rendering map m is among the potential matches the
@@ -128,8 +130,100 @@ Theorem C40_scan_split :
 Proof. exact scan_split. Qed.
 Print Assumptions C40_scan_split.
 
+(* getLogByLvIndex on an index whose block pointers are the chain's layout: for every log
+   value index lv at or after the first indexed block and inside the rendered maps it
+   returns the log whose FIRST value is at lv, and none otherwise *)
+Theorem C40_get_log_correct :
+  forall (P : params) (chain : list (list log)) lay e',
+  layout_blocks P 0 chain = (lay, e') -> chain <> [] ->
+  forall ix, ix_ptrs ix = map fst lay ->
+  forall rg lv bf pf,
+  r_bfirst rg = N.of_nat bf -> nth_error (ix_ptrs ix) bf = Some pf -> pf <= lv ->
+  r_mfirst rg <= lv / vpm P -> lv / vpm P < r_mafter rg ->
+  get_log_by_lv_index P chain ix rg lv = Some (lookup (placed_of lay) lv).
+Proof. exact get_log_spec. Qed.
+Print Assumptions C40_get_log_correct.
+
+(* a block range inside the indexed blocks: the matcher over the maps of the range, the
+   log lookups and the final filterLogs together return exactly the direct scan *)
+Theorem C40_indexed_exact :
+  forall (P : params) (addr_value topic_value : N -> N)
+         (row_hash : N -> nat -> N -> N) (col_index : N -> N -> N),
+  (forall lv v, N.shiftr (col_index lv v) (p_hbits P) = lv mod vpm P) ->
+  p_brl P < two32 ->
+  forall fuel0 fuel chain lay e' ix rg first last addrs topics out,
+  layout_blocks P 0 chain = (lay, e') ->
+  index_ok P addr_value topic_value row_hash col_index fuel0 lay e' ix rg ->
+  (forall b l, In b chain -> In l b -> log_len l <= vpm P) ->
+  rg_ok P lay ix rg ->
+  fst (indexed_blocks rg) <= first -> first <= last -> last < snd (indexed_blocks rg) ->
+  indexed_logs P addr_value topic_value row_hash col_index fuel chain ix rg first last addrs topics
+    = Some (IxLogs out) ->
+  scan chain addrs topics first last = Some out.
+Proof. exact indexed_exact. Qed.
+Print Assumptions C40_indexed_exact.
+
+(* THE PROPERTY: whatever part of first..last is indexed, rangeLogs returns the scan *)
+Theorem C40_query_exact :
+  forall (P : params) (addr_value topic_value : N -> N)
+         (row_hash : N -> nat -> N -> N) (col_index : N -> N -> N),
+  (forall lv v, N.shiftr (col_index lv v) (p_hbits P) = lv mod vpm P) ->
+  p_brl P < two32 ->
+  forall fuel0 fuel chain lay e' ix rg head addrs topics first last ms,
+  layout_blocks P 0 chain = (lay, e') ->
+  index_ok P addr_value topic_value row_hash col_index fuel0 lay e' ix rg ->
+  (forall b l, In b chain -> In l b -> log_len l <= vpm P) ->
+  rg_ok P lay ix rg ->
+  range_logs P addr_value topic_value row_hash col_index fuel chain ix rg head addrs topics first last = QOk ms ->
+  scan chain addrs topics (match first with Some f => f | None => head end)
+                          (match last with Some l => l | None => head end) = Some ms.
+Proof. exact query_exact. Qed.
+Print Assumptions C40_query_exact.
+
+(* the index built from the chain, with the range the idle indexer settles on, meets
+   [rg_ok] and [index_ok] ... *)
+Theorem C40_idle_range_ok :
+  forall (P : params) (addr_value topic_value : N -> N)
+         (row_hash : N -> nat -> N -> N) (col_index : N -> N -> N),
+  (forall lv v, N.shiftr (col_index lv v) (p_hbits P) = lv mod vpm P) ->
+  p_brl P < two32 ->
+  forall fuel0 chain lay e' ix head history cutoff,
+  layout_blocks P 0 chain = (lay, e') ->
+  build_index P addr_value topic_value row_hash col_index fuel0 chain = Some ix ->
+  N.of_nat (length chain) = head + 1 ->
+  rg_ok P lay ix (idle_range P ix head history cutoff) /\
+  index_ok P addr_value topic_value row_hash col_index fuel0 lay e' ix (idle_range P ix head history cutoff).
+Proof. exact idle_range_ok. Qed.
+Print Assumptions C40_idle_range_ok.
+
+(* ... hence the property for it, with no side condition on the index *)
+Theorem C40_query_exact_idle :
+  forall (P : params) (addr_value topic_value : N -> N)
+         (row_hash : N -> nat -> N -> N) (col_index : N -> N -> N),
+  (forall lv v, N.shiftr (col_index lv v) (p_hbits P) = lv mod vpm P) ->
+  p_brl P < two32 ->
+  forall fuel0 fuel chain ix head history cutoff addrs topics first last ms,
+  build_index P addr_value topic_value row_hash col_index fuel0 chain = Some ix ->
+  (forall b l, In b chain -> In l b -> log_len l <= vpm P) ->
+  N.of_nat (length chain) = head + 1 ->
+  range_logs P addr_value topic_value row_hash col_index fuel chain ix
+             (idle_range P ix head history cutoff) head addrs topics first last = QOk ms ->
+  scan chain addrs topics (match first with Some f => f | None => head end)
+                          (match last with Some l => l | None => head end) = Some ms.
+Proof. exact query_exact_idle. Qed.
+Print Assumptions C40_query_exact_idle.
+
 (* non-vacuity: a concrete parameter set and hash functions satisfying [col_high]
    (8 values per map, 2 hash bits, rows of length 2 so the third equal value overflows to
    layer 1), a rendered map, and a filter that finds the log at index 9 *)
 Example C40_nonvacuous : c40_demo = true.
+Proof. vm_compute. reflexivity. Qed.
+
+(* non-vacuity of C40_query_exact_idle: the demo column hash satisfies [col_high] for all
+   arguments, and on a 7-block chain (4 maps, idle range starting at block 4 / map 2) a
+   query across the indexed range returns the 6 logs of the scan *)
+Example C40_nonvacuous_col_high :
+  forall lv v, N.shiftr (demo_col lv v) (p_hbits demoP) = lv mod vpm demoP.
+Proof. exact demo_col_high. Qed.
+Example C40_nonvacuous_query : c40_demo_query = true.
 Proof. vm_compute. reflexivity. Qed.
